@@ -72,12 +72,248 @@ theorem safe_readTableDef : Safe readTableDef :=
 
 theorem safe_readIdxCol : Safe readIdxCol :=
   Safe.bind Safe.readString (fun _ => Safe.bind Safe.u8 (fun _ =>
-    Safe.ite (Safe.pure _) (Safe.ite (Safe.pure _) (Safe.fail _))))
+    Safe.ite (Safe.pure _) (Safe.ite (Safe.pure _)
+      (Safe.ite (Safe.bind (Safe.uN 8) (fun _ => Safe.pure _))
+        (Safe.ite (Safe.bind (Safe.uN 8) (fun _ => Safe.pure _)) (Safe.fail _))))))
 
 theorem safe_readIdxDef : Safe readIdxDef :=
   Safe.bind Safe.readString (fun _ => Safe.bind Safe.readString (fun _ =>
     Safe.bind Safe.rbool (fun _ => Safe.bind (Safe.uN 4) (fun k =>
       Safe.bind (Safe.many safe_readIdxCol k) (fun _ => Safe.pure _)))))
+
+/-! ### expressions in trigger WHEN conditions (depth-bounded reader) -/
+
+theorem safe_checkTypeText (t : Bytes) : Safe (checkTypeText t) := by
+  unfold checkTypeText
+  split
+  · exact Safe.fail _
+  · split
+    · exact Safe.pure _
+    · exact Safe.fail _
+
+macro "safe_step" : tactic => `(tactic| first
+  | exact Safe.pure _ | exact Safe.fail _ | assumption
+  | exact Safe.readString | exact Safe.rbool | exact Safe.u8 | exact Safe.uN _
+  | exact Safe.readEnum _ | exact C20_readValue_safe | exact safe_checkTypeText _
+  | apply Safe.optional | apply Safe.many | apply Safe.ite | apply Safe.bind | intro _)
+
+theorem safe_readCaseWhen {rec : Reader ExInfo} (h : Safe rec) : Safe (readCaseWhen rec) := by
+  unfold readCaseWhen; repeat safe_step
+
+theorem safe_readFrameBound {rec : Reader ExInfo} (h : Safe rec) : Safe (readFrameBound rec) := by
+  unfold readFrameBound; repeat safe_step
+
+theorem safe_readWindow {rec : Reader ExInfo} (h : Safe rec) : Safe (readWindow rec) := by
+  have hb := safe_readFrameBound h
+  unfold readWindow; repeat safe_step
+
+theorem safe_readExprBody {rec : Reader ExInfo} (h : Safe rec) (k : EK) : Safe (readExprBody rec k) := by
+  have hc := safe_readCaseWhen h
+  have hw := safe_readWindow h
+  have ht := safe_checkTypeText
+  cases k <;> unfold readExprBody <;> repeat safe_step
+
+/-- **T2/T3 for expressions**: at every nesting budget the reader leaves a suffix and asks for no
+    buffer beyond the input -/
+theorem C20_readExpr_safe (fuel : Nat) : Safe (readExpr fuel) := by
+  induction fuel with
+  | zero => exact Safe.fail _
+  | succ f ih =>
+    unfold readExpr
+    refine Safe.bind Safe.u8 (fun b => ?_)
+    cases EK.fromNat? b.toNat with
+    | none => exact Safe.fail _
+    | some k => exact safe_readExprBody ih k
+
+theorem combine_depth_le (cs : List ExInfo) (d : Nat) (h : ∀ c ∈ cs, c.depth ≤ d) :
+    (ExInfo.combine cs).depth ≤ d + 1 := by
+  have : ∀ (l : List ExInfo) (m : Nat), m ≤ d → (∀ c ∈ l, c.depth ≤ d) →
+      l.foldl (fun m c => max m c.depth) m ≤ d := by
+    intro l
+    induction l with
+    | nil => intro m hm _; simpa using hm
+    | cons a l ih =>
+      intro m hm hl
+      simp only [List.foldl_cons]
+      exact ih _ (Nat.max_le.mpr ⟨hm, hl a (by simp)⟩) (fun c hc => hl c (by simp [hc]))
+  have := this cs 0 (Nat.zero_le _) h
+  simp only [ExInfo.combine]; omega
+
+/-- depth predicate on lists of children -/
+abbrev AllLe (d : Nat) (l : List ExInfo) : Prop := ∀ c ∈ l, c.depth ≤ d
+
+macro "post_step" : tactic => `(tactic| first
+  | assumption
+  | exact Post.fail _
+  | apply Post.ite
+  | intro _ )
+
+theorem post_leaf (d : Nat) : Post (fun e : ExInfo => e.depth ≤ d + 1) (Pure.pure ExInfo.leaf) :=
+  Post.pure (by simp [ExInfo.leaf])
+
+/-- a reader whose children all come from `rec`: the children collected so far satisfy `AllLe d` -/
+theorem post_combine {d : Nat} {cs : List ExInfo} (h : AllLe d cs) :
+    Post (fun e : ExInfo => e.depth ≤ d + 1) (Pure.pure (ExInfo.combine cs)) :=
+  Post.pure (combine_depth_le cs d h)
+
+theorem allLe_nil (d : Nat) : AllLe d [] := by intro c hc; cases hc
+theorem allLe_cons {d : Nat} {a : ExInfo} {l : List ExInfo} (ha : a.depth ≤ d) (hl : AllLe d l) :
+    AllLe d (a :: l) := by
+  intro c hc; rcases List.mem_cons.mp hc with e | e
+  · subst e; exact ha
+  · exact hl c e
+theorem allLe_append {d : Nat} {l m : List ExInfo} (hl : AllLe d l) (hm : AllLe d m) :
+    AllLe d (l ++ m) := by
+  intro c hc; rcases List.mem_append.mp hc with e | e
+  · exact hl c e
+  · exact hm c e
+theorem allLe_optList {d : Nat} {o : Option ExInfo} (h : ∀ x, o = some x → x.depth ≤ d) :
+    AllLe d o.toList := by
+  cases o with
+  | none => exact allLe_nil d
+  | some x => intro c hc; simp at hc; rw [hc]; exact h x rfl
+theorem allLe_getD {d : Nat} {o : Option (List ExInfo)} (h : ∀ x, o = some x → AllLe d x) :
+    AllLe d (o.getD []) := by
+  cases o with
+  | none => exact allLe_nil d
+  | some x => exact h x rfl
+theorem allLe_flatten {d : Nat} {ll : List (List ExInfo)} (h : ∀ l ∈ ll, AllLe d l) :
+    AllLe d ll.flatten := by
+  intro c hc
+  obtain ⟨l, hl, hcl⟩ := List.mem_flatten.mp hc
+  exact h l hl c hcl
+
+theorem post_caseWhen {rec : Reader ExInfo} {d : Nat} (h : Post (fun e => e.depth ≤ d) rec) :
+    Post (AllLe d) (readCaseWhen rec) := by
+  unfold readCaseWhen
+  refine Post.bind (Post.trivial _) (fun m _ => Post.bind (Post.many h m) (fun conds hc =>
+    Post.bind h (fun r hr => Post.pure ?_)))
+  exact allLe_append hc (allLe_cons hr (allLe_nil d))
+
+theorem post_frameBound {rec : Reader ExInfo} {d : Nat} (h : Post (fun e => e.depth ≤ d) rec) :
+    Post (AllLe d) (readFrameBound rec) := by
+  unfold readFrameBound
+  refine Post.bind (Post.trivial _) (fun t _ => Post.ite ?_ (Post.pure (allLe_nil d)))
+  exact Post.bind h (fun e he => Post.pure (allLe_cons he (allLe_nil d)))
+
+theorem post_window {rec : Reader ExInfo} {d : Nat} (h : Post (fun e => e.depth ≤ d) rec) :
+    Post (AllLe d) (readWindow rec) := by
+  unfold readWindow
+  refine Post.bind (Post.trivial _) (fun _ _ => Post.bind (Post.trivial _) (fun _ _ =>
+    Post.bind (Post.trivial _) (fun n _ => Post.bind (Post.many h n) (fun args ha => ?_))))
+  refine Post.bind (Post.optional (P := AllLe d)
+    (Post.bind (Post.trivial _) (fun k _ => Post.many h k))) (fun part hp => ?_)
+  refine Post.bind (Post.trivial _) (fun ho _ => Post.ite (Post.fail _) ?_)
+  refine Post.bind (Post.optional (P := AllLe d) ?_) (fun frame hf => Post.pure ?_)
+  · refine Post.bind (Post.trivial _) (fun _ _ => Post.bind (post_frameBound h) (fun s hs =>
+      Post.bind (Post.optional (post_frameBound h)) (fun e he => Post.pure ?_)))
+    exact allLe_append hs (allLe_getD he)
+  · exact allLe_append (allLe_append ha (allLe_getD hp)) (allLe_getD hf)
+
+theorem post_readExprBody {rec : Reader ExInfo} {d : Nat} (h : Post (fun e => e.depth ≤ d) rec)
+    (k : EK) : Post (fun e => e.depth ≤ d + 1) (readExprBody rec k) := by
+  have T {α : Type} (rd : Reader α) := Post.trivial rd
+  have n0 := allLe_nil d
+  cases k <;> unfold readExprBody
+  case literal => exact Post.bind (T _) (fun _ _ => post_leaf d)
+  case columnRef => exact Post.bind (T _) (fun _ _ => Post.bind (T _) (fun _ _ => post_leaf d))
+  case binaryOp =>
+    exact Post.bind (T _) (fun _ _ => Post.bind h (fun l hl => Post.bind h (fun r hr =>
+      post_combine (allLe_cons hl (allLe_cons hr n0)))))
+  case unaryOp =>
+    exact Post.bind (T _) (fun _ _ => Post.bind h (fun e he => post_combine (allLe_cons he n0)))
+  case function =>
+    exact Post.bind (T _) (fun _ _ => Post.bind (T _) (fun n _ => Post.bind (Post.many h n)
+      (fun args ha => Post.bind (T _) (fun _ _ => post_combine ha))))
+  case aggregateFunction =>
+    exact Post.bind (T _) (fun _ _ => Post.bind (T _) (fun _ _ => Post.bind (T _) (fun n _ =>
+      Post.bind (Post.many h n) (fun args ha => post_combine ha))))
+  case isNull =>
+    exact Post.bind h (fun e he => Post.bind (T _) (fun _ _ => post_combine (allLe_cons he n0)))
+  case wildcard => exact post_leaf d
+  case case =>
+    exact Post.bind (Post.optional h) (fun op hop => Post.bind (T _) (fun n _ =>
+      Post.bind (Post.many (post_caseWhen h) n) (fun whens hw => Post.bind (Post.optional h)
+        (fun els hels => post_combine
+          (allLe_append (allLe_append (allLe_optList hop) (allLe_flatten hw)) (allLe_optList hels))))))
+  case scalarSubquery => exact Post.fail _
+  case inSubquery => exact Post.fail _
+  case inList =>
+    exact Post.bind h (fun e he => Post.bind (T _) (fun n _ => Post.bind (Post.many h n)
+      (fun vs hv => Post.bind (T _) (fun _ _ => post_combine (allLe_cons he hv)))))
+  case between =>
+    exact Post.bind h (fun e he => Post.bind h (fun lo hlo => Post.bind h (fun hi hhi =>
+      Post.bind (T _) (fun _ _ => Post.bind (T _) (fun _ _ =>
+        post_combine (allLe_cons he (allLe_cons hlo (allLe_cons hhi n0))))))))
+  case cast =>
+    exact Post.bind h (fun e he => Post.bind (T _) (fun _ _ => Post.bind (T _) (fun _ _ =>
+      post_combine (allLe_cons he n0))))
+  case position =>
+    exact Post.bind h (fun a ha => Post.bind h (fun b hb => Post.bind (T _) (fun _ _ =>
+      post_combine (allLe_cons ha (allLe_cons hb n0)))))
+  case trim =>
+    exact Post.bind (T _) (fun _ _ => Post.bind (Post.optional h) (fun c hc => Post.bind h
+      (fun e he => post_combine (allLe_append (allLe_optList hc) (allLe_cons he n0)))))
+  case like =>
+    exact Post.bind h (fun e he => Post.bind h (fun p hp => Post.bind (T _) (fun _ _ =>
+      post_combine (allLe_cons he (allLe_cons hp n0)))))
+  case «exists» => exact Post.fail _
+  case quantifiedComparison => exact Post.fail _
+  case currentDate => exact post_leaf d
+  case currentTime => exact Post.bind (T _) (fun _ _ => post_leaf d)
+  case currentTimestamp => exact Post.bind (T _) (fun _ _ => post_leaf d)
+  case interval =>
+    exact Post.bind h (fun e he => Post.bind (T _) (fun _ _ => Post.bind (T _) (fun _ _ =>
+      Post.bind (T _) (fun _ _ => post_combine (allLe_cons he n0)))))
+  case default => exact post_leaf d
+  case duplicateKeyValue => exact Post.bind (T _) (fun _ _ => post_leaf d)
+  case windowFunction => exact Post.bind (post_window h) (fun cs hcs => post_combine hcs)
+  case nextValue => exact Post.bind (T _) (fun _ _ => post_leaf d)
+  case matchAgainst =>
+    exact Post.bind (T _) (fun _ _ => Post.bind (T _) (fun _ _ => Post.bind h (fun e he =>
+      Post.bind (T _) (fun _ _ => post_combine (allLe_cons he n0)))))
+  case pseudoVariable => exact Post.bind (T _) (fun _ _ => Post.bind (T _) (fun _ _ => post_leaf d))
+  case sessionVariable => exact Post.bind (T _) (fun _ _ => post_leaf d)
+
+/-- **the nesting depth of whatever the reader accepts never exceeds its budget** -/
+theorem C20_readExpr_depth_bounded (fuel : Nat) :
+    Post (fun e : ExInfo => e.depth ≤ fuel) (readExpr fuel) := by
+  induction fuel with
+  | zero => exact Post.fail _
+  | succ f ih =>
+    unfold readExpr
+    refine Post.bind (Post.trivial _) (fun b _ => ?_)
+    cases EK.fromNat? b.toNat with
+    | none => exact Post.fail _
+    | some k => exact post_readExprBody ih k
+
+/-- … so an accepted WHEN condition is at most `MAX_EXPRESSION_DEPTH + 1` levels deep -/
+theorem C20_readExpression_depth (inp : Bytes) (e : ExInfo) (rest : Bytes)
+    (h : (readExpression inp).res = .ok (e, rest)) : e.depth ≤ exprMaxDepth + 1 :=
+  C20_readExpr_depth_bounded _ inp e rest h
+
+/-- the 06 byte is the `IsNull` arm (taken from the source table) -/
+theorem ek_isNull : EK.fromNat? (6 : UInt8).toNat = some .isNull := by decide
+
+/-- **a run of nested expression tags longer than the budget is an error, not a deep recursion**:
+    `n ≥ fuel` bytes `06` (IsNull), whatever follows -/
+theorem C20_nesting_beyond_limit_rejected (fuel n : Nat) (rest : Bytes) (h : fuel ≤ n) :
+    (readExpr fuel (List.replicate n 6 ++ rest)).res = .error .depthExceeded := by
+  induction fuel generalizing n with
+  | zero => rfl
+  | succ f ih =>
+    obtain ⟨m, rfl⟩ : ∃ m, n = m + 1 := ⟨n - 1, by omega⟩
+    have hm : f ≤ m := by omega
+    unfold readExpr
+    rw [List.replicate_succ, List.cons_append, bind_def,
+      bind_res_ok (a := (6 : UInt8)) (rest := List.replicate m 6 ++ rest) rfl]
+    simp only [ek_isNull, readExprBody]
+    rw [bind_def, bind_res_err (ih m hm)]
+
+/-- the crafted probe of the harness: 400000 nested IsNull tags -/
+theorem C20_probe_400000_nested (rest : Bytes) :
+    (readExpression (List.replicate 400000 6 ++ rest)).res = .error .depthExceeded :=
+  C20_nesting_beyond_limit_rejected (exprMaxDepth + 1) 400000 rest (by decide)
 
 theorem safe_readTrig : Safe readTrig := by
   unfold readTrig
@@ -87,7 +323,7 @@ theorem safe_readTrig : Safe readTrig := by
   refine Safe.bind (Safe.ite (Safe.bind (Safe.uN 4) (fun k => Safe.many Safe.readString k))
     (Safe.pure _)) (fun _ => ?_)
   refine Safe.bind Safe.u8 (fun _ => Safe.ite (Safe.fail _) ?_)
-  refine Safe.bind Safe.rbool (fun _ => Safe.ite (Safe.fail _) ?_)
+  refine Safe.bind (Safe.optional (C20_readExpr_safe _)) (fun _ => ?_)
   refine Safe.bind Safe.u8 (fun _ => Safe.ite (Safe.fail _) ?_)
   exact Safe.bind Safe.readString (fun _ => Safe.pure _)
 
@@ -110,7 +346,7 @@ theorem safe_readTableData (tables : List TableDef) : Safe (readTableData tables
   refine Safe.bind Safe.readString (fun name => Safe.bind (Safe.uN 8) (fun n => ?_))
   cases findCols tables name with
   | none => exact Safe.fail _
-  | some k => exact Safe.bind (C20_readRows_safe n k) (fun _ => Safe.pure _)
+  | some k => exact Safe.ite (Safe.fail _) (Safe.bind (C20_readRows_safe n k) (fun _ => Safe.pure _))
 
 theorem safe_loadFile : Safe loadFile :=
   Safe.bind safe_readHeader (fun _ => Safe.bind C20_readCatalog_safe (fun c =>
@@ -133,8 +369,8 @@ theorem C20_empty_and_bad_magic :
     (loadFile ([0x56, 0x42, 0x53, 0x51, 0x4D] ++ List.replicate 11 0)).res = .error .badMagic :=
   ⟨rfl, rfl⟩
 
-/-- **work is not bounded by the input when a table has no columns**: a zero-column row
-    consumes no input, so the row loop runs `n` times for any row count `n` found in the file -/
+/-- a zero-column row consumes no input: this is why the row loop of `read_data` needs a guard
+    (before the repair the loop ran `n` times for any row count `n` found in the file) -/
 theorem C20_zero_column_rows_consume_nothing (n : Nat) (inp : Bytes) :
     (readRows n 0 inp).res = .ok (List.replicate n [], inp) := by
   induction n with
@@ -145,6 +381,66 @@ theorem C20_zero_column_rows_consume_nothing (n : Nat) (inp : Bytes) :
     rw [bind_def, bind_res_ok (a := ([] : Row)) (rest := inp) rfl,
       bind_def, bind_res_ok ih]
     rfl
+
+/-- every encoded value takes at least its tag byte -/
+theorem eats_readValue : Eats 1 readValue := by
+  unfold readValue
+  have := Eats.bind (m := 1) (k := 0) Eats.u8 (g := fun b : UInt8 =>
+    match Tag.fromNat? b.toNat with
+    | none => (fail (.badTag b.toNat) : Reader BVal)
+    | some t => readBody t) (fun b => by
+      cases Tag.fromNat? b.toNat with
+      | none => exact Eats.of_safe (Safe.fail _)
+      | some t => exact Eats.of_safe (safe_readBody t))
+  exact this
+
+/-- `n` rows of `k` values consume at least `n * k` bytes -/
+theorem C20_rows_consume_input (n k : Nat) : Eats (n * k) (readRows n k) := by
+  have h1 : Eats k (readRow k) := by
+    have := Eats.many eats_readValue k
+    simpa [readRow] using this
+  exact Eats.many h1 n
+
+/-- **the repaired data reader: the number of rows it returns is bounded by the input it consumed**
+    — for every byte string, every catalog; a table without columns cannot claim rows -/
+theorem C20_table_rows_bounded_by_input (tables : List TableDef) (inp : Bytes) (t : TableData)
+    (rest : Bytes) (h : (readTableData tables inp).res = .ok (t, rest)) :
+    t.rows.length + rest.length ≤ inp.length := by
+  unfold readTableData at h
+  obtain ⟨name, m1, h1, h⟩ := bind_ok_inv h
+  obtain ⟨n, m2, h2, h⟩ := bind_ok_inv h
+  have l1 := ((Safe.readString inp).2 name m1 h1).length_le
+  have l2 := ((Safe.uN 8 m1).2 n m2 h2).length_le
+  cases hk : findCols tables name with
+  | none => simp only [hk] at h; cases h
+  | some k =>
+    simp only [hk] at h
+    by_cases hz : k = 0 ∧ n > 0
+    · rw [if_pos hz] at h; cases h
+    · rw [if_neg hz] at h
+      obtain ⟨rows, m3, h3, h⟩ := bind_ok_inv h
+      obtain ⟨ht, hr⟩ := pure_ok_inv h
+      have e := C20_rows_consume_input n k m2 rows m3 h3
+      have hl : rows.length = n := many_length n m2 rows m3 h3
+      rw [ht, hr]
+      show rows.length + m3.length ≤ inp.length
+      have : n ≤ n * k := by
+        rcases Nat.eq_zero_or_pos n with h0 | h0
+        · simp [h0]
+        · have : k ≠ 0 := fun hk0 => hz ⟨hk0, h0⟩
+          exact Nat.le_mul_of_pos_right n (Nat.pos_of_ne_zero this)
+      omega
+
+/-- the crafted probe: a data block for a table without columns that claims rows is rejected -/
+theorem C20_zero_column_data_rejected (tables : List TableDef) (name : Bytes) (n : Nat) (rest : Bytes)
+    (hv : validUtf8 name = true) (hl : name.length < 2 ^ 32) (hn : 0 < n) (hn2 : n < 2 ^ 64)
+    (hk : findCols tables name = some 0) :
+    (readTableData tables (writeString name ++ (leBytes 8 n ++ rest))).res = .error .zeroColumnRows := by
+  unfold readTableData
+  rw [bind_def, bind_res_ok (Reads.string hv hl _), bind_def,
+    bind_res_ok (Reads.uN (k := 8) (by simpa using hn2) _)]
+  simp only [hk, hn, and_self, if_true]
+  rfl
 
 /-! ### column type texts read from a (possibly damaged) catalog: `parse_data_type`
 
